@@ -275,13 +275,14 @@ def check_long_orders(acc, tier):
     of the order and two or three different unlisted keys in every arrangement of up to 4 (5) fields; one instance per
     order over all entries (listed first in listed order, unlisted after them in source order, also on the 100th call)."""
     top = 12 if tier == "quick" else 20
-    for n in range(5, top + 1):
+    # ... and orders around the sizes where small-number and container representations change (255 .. 258, 300, 1000, 5000)
+    for n in list(range(5, top + 1)) + [100, 255, 256, 257, 258, 300, 1000] + ([5000] if tier == "thorough" else []):
         order = tuple(f"k{i:02d}" for i in range(n))
         pool = [order[0], order[-1], order[n // 2], "x", "y", "z"]
         rank = lambda k, o=order: o.index(k) if k in o else len(o)
         for ip in (True, False):
             inst = SortFieldsCustomMiddleware(order=order, allow_inplace_modification=ip)
-            for m in range(1, (4 if tier == "quick" else 5) + 1):
+            for m in range(1, ((4 if tier == "quick" else 5) if n <= 20 else 3) + 1):
                 for keys in itertools.product(pool, repeat=m):
                     lib = mk(keys)
                     src = pairs(lib.blocks[0])
@@ -400,6 +401,15 @@ def run_shard(shard, tier, acc):
                     run_one(keys, f"custom:{','.join(order)}:cs", lambda ip, o=order: SortFieldsCustomMiddleware(order=tuple(o), case_sensitive=True, allow_inplace_modification=ip), acc, rank)
                     rank2 = lambda k, o=order: o.index(k.lower()) if k.lower() in o else len(o)
                     run_one(keys, f"custom:{','.join(order)}:ci", lambda ip, o=order: SortFieldsCustomMiddleware(order=tuple(o), allow_inplace_modification=ip), acc, rank2)
+        # hand-built keys with blanks around or inside them: a key is the text it is, blanks and all
+        WK = ["Note ", " note", "note", "NOTE\t", "no te", "\nnote"]
+        for n in (1, 2, 3):
+            for keys in itertools.product(WK, repeat=n):
+                run_one(keys, "alphabetical", lambda ip: SortFieldsAlphabeticallyMiddleware(allow_inplace_modification=ip), acc)
+                run_one(keys, "normalize", lambda ip: NormalizeFieldKeys(allow_inplace_modification=ip), acc)
+                for order in (("note",), ("note ", "note"), (" note", "no te")):
+                    rank2 = lambda k, o=order: o.index(k.lower()) if k.lower() in o else len(o)
+                    run_one(keys, f"custom:{','.join(order)}:ci", lambda ip, o=order: SortFieldsCustomMiddleware(order=tuple(o), allow_inplace_modification=ip), acc, rank2)
         UK = ["Stra\xdfe", "strasse", "STRASSE", "stra\xdfe", "\u017f", "s", "\u0130", "i\u0307", "\xc9", "\xe9", "e\u0301"]
         for n in (1, 2, 3):
             for keys in itertools.product(UK, repeat=n):
@@ -449,7 +459,7 @@ def replay(case, acc):
     if "shared_fields" in case:
         check_shared_fields(acc)
     elif "long_order" in case:
-        check_long_orders(acc, "quick" if case["long_order"] <= 12 and len(case["keys"]) <= 4 else "thorough")
+        check_long_orders(acc, "quick" if (case["long_order"] <= 12 or 20 < case["long_order"] <= 1000) and len(case["keys"]) <= 4 else "thorough")
     elif "spelling" in case:
         check_spellings(acc)
     elif "leak" in case:
